@@ -27,7 +27,7 @@ ycc_rgb565_convert_internal(j_decompress_ptr cinfo, _JSAMPIMAGE input_buf,
   register _JSAMPROW outptr;
   register _JSAMPROW inptr0, inptr1, inptr2;
   register JDIMENSION col;
-  JDIMENSION num_cols = cinfo->output_width;
+  JDIMENSION num_cols;
   /* copy these pointers into registers if possible */
   register _JSAMPLE *range_limit = (_JSAMPLE *)cinfo->sample_range_limit;
   register int *Crrtab = cconvert->Cr_r_tab;
@@ -44,6 +44,7 @@ ycc_rgb565_convert_internal(j_decompress_ptr cinfo, _JSAMPIMAGE input_buf,
     inptr2 = input_buf[2][input_row];
     input_row++;
     outptr = *output_buf++;
+    num_cols = cinfo->output_width;
 
     if (PACK_NEED_ALIGNMENT(outptr)) {
       y  = *inptr0++;
@@ -110,7 +111,7 @@ ycc_rgb565D_convert_internal(j_decompress_ptr cinfo, _JSAMPIMAGE input_buf,
   register _JSAMPROW outptr;
   register _JSAMPROW inptr0, inptr1, inptr2;
   register JDIMENSION col;
-  JDIMENSION num_cols = cinfo->output_width;
+  JDIMENSION num_cols;
   /* copy these pointers into registers if possible */
   register _JSAMPLE *range_limit = (_JSAMPLE *)cinfo->sample_range_limit;
   register int *Crrtab = cconvert->Cr_r_tab;
@@ -129,6 +130,7 @@ ycc_rgb565D_convert_internal(j_decompress_ptr cinfo, _JSAMPIMAGE input_buf,
     inptr2 = input_buf[2][input_row];
     input_row++;
     outptr = *output_buf++;
+    num_cols = cinfo->output_width;
     if (PACK_NEED_ALIGNMENT(outptr)) {
       y  = *inptr0++;
       cb = *inptr1++;
@@ -197,7 +199,7 @@ rgb_rgb565_convert_internal(j_decompress_ptr cinfo, _JSAMPIMAGE input_buf,
   register _JSAMPROW outptr;
   register _JSAMPROW inptr0, inptr1, inptr2;
   register JDIMENSION col;
-  JDIMENSION num_cols = cinfo->output_width;
+  JDIMENSION num_cols;
   SHIFT_TEMPS
 
   while (--num_rows >= 0) {
@@ -209,6 +211,7 @@ rgb_rgb565_convert_internal(j_decompress_ptr cinfo, _JSAMPIMAGE input_buf,
     inptr2 = input_buf[2][input_row];
     input_row++;
     outptr = *output_buf++;
+    num_cols = cinfo->output_width;
     if (PACK_NEED_ALIGNMENT(outptr)) {
       r = *inptr0++;
       g = *inptr1++;
@@ -253,7 +256,7 @@ rgb_rgb565D_convert_internal(j_decompress_ptr cinfo, _JSAMPIMAGE input_buf,
   register _JSAMPROW inptr0, inptr1, inptr2;
   register JDIMENSION col;
   register _JSAMPLE *range_limit = (_JSAMPLE *)cinfo->sample_range_limit;
-  JDIMENSION num_cols = cinfo->output_width;
+  JDIMENSION num_cols;
   JLONG d0 = dither_matrix[cinfo->output_scanline & DITHER_MASK];
   SHIFT_TEMPS
 
@@ -266,6 +269,7 @@ rgb_rgb565D_convert_internal(j_decompress_ptr cinfo, _JSAMPIMAGE input_buf,
     inptr2 = input_buf[2][input_row];
     input_row++;
     outptr = *output_buf++;
+    num_cols = cinfo->output_width;
     if (PACK_NEED_ALIGNMENT(outptr)) {
       r = range_limit[DITHER_565_R(*inptr0++, d0)];
       g = range_limit[DITHER_565_G(*inptr1++, d0)];
@@ -310,7 +314,7 @@ gray_rgb565_convert_internal(j_decompress_ptr cinfo, _JSAMPIMAGE input_buf,
 {
   register _JSAMPROW inptr, outptr;
   register JDIMENSION col;
-  JDIMENSION num_cols = cinfo->output_width;
+  JDIMENSION num_cols;
 
   while (--num_rows >= 0) {
     JLONG rgb;
@@ -318,6 +322,7 @@ gray_rgb565_convert_internal(j_decompress_ptr cinfo, _JSAMPIMAGE input_buf,
 
     inptr = input_buf[0][input_row++];
     outptr = *output_buf++;
+    num_cols = cinfo->output_width;
     if (PACK_NEED_ALIGNMENT(outptr)) {
       g = *inptr++;
       rgb = PACK_SHORT_565(g, g, g);
@@ -351,7 +356,7 @@ gray_rgb565D_convert_internal(j_decompress_ptr cinfo, _JSAMPIMAGE input_buf,
   register _JSAMPROW inptr, outptr;
   register JDIMENSION col;
   register _JSAMPLE *range_limit = (_JSAMPLE *)cinfo->sample_range_limit;
-  JDIMENSION num_cols = cinfo->output_width;
+  JDIMENSION num_cols;
   JLONG d0 = dither_matrix[cinfo->output_scanline & DITHER_MASK];
 
   while (--num_rows >= 0) {
@@ -360,6 +365,7 @@ gray_rgb565D_convert_internal(j_decompress_ptr cinfo, _JSAMPIMAGE input_buf,
 
     inptr = input_buf[0][input_row++];
     outptr = *output_buf++;
+    num_cols = cinfo->output_width;
     if (PACK_NEED_ALIGNMENT(outptr)) {
       g = *inptr++;
       g = range_limit[DITHER_565_R(g, d0)];
